@@ -495,6 +495,9 @@ func runC38(p *Prog, r *Report) {
 	timerArmedWithCheckedDuration(p, r)
 	failureCarriesError(p, r)
 	runPipelineCaller(p, r, "C38")
+	// a request that was written and not answered when its connection ended is completed with an error by the worker
+	// (drain only after both goroutines stopped, and no return without the drain) - shared with C04.R9/R10
+	pendingDrainedAfterBothStopped(p, r)
 	// the overflow error of the non-deadline call comes only from the default branch of a non-blocking send
 	fn := p.Func("(*pipelineConnClient).Do")
 	if fn == nil {
@@ -1486,11 +1489,62 @@ func pendingDrainedAfterBothStopped(p *Prog, r *Report) {
 			}
 		},
 	})
+	// the dual (R10): once both goroutines have stopped, the worker does not return before it found the queue empty
+	const bEmpty = uint64(1) << 20
+	nret, badRet := 0, 0
+	var witRet []string
+	var posRet token.Pos
+	allDone := uint64(1)<<uint(len(done)) - 1
+	prevBranch := x.H.Branch
+	x.H.Branch = func(x *Explorer, st *State, cond ssa.Value, taken bool, from *ssa.BasicBlock) {
+		prevBranch(x, st, cond, taken, from)
+		bo, ok := cond.(*ssa.BinOp)
+		if !ok || st.Ev&allDone != allDone {
+			return
+		}
+		isLenQ := func(v ssa.Value) bool {
+			c, ok := v.(*ssa.Call)
+			if !ok {
+				return false
+			}
+			bi, ok := c.Call.Value.(*ssa.Builtin)
+			if !ok || bi.Name() != "len" || len(c.Call.Args) != 1 {
+				return false
+			}
+			_, fv := loadedField(c.Call.Args[0])
+			return fv != nil && fv.Name() == "chR"
+		}
+		k, isK := constInt(bo.Y)
+		if !isLenQ(bo.X) || !isK || k != 0 {
+			return
+		}
+		if (bo.Op == token.GTR && !taken) || (bo.Op == token.EQL && taken) || (bo.Op == token.NEQ && !taken) || (bo.Op == token.LEQ && taken) {
+			st.Set(bEmpty)
+		}
+	}
+	x.H.Exit = func(x *Explorer, st *State, ret *ssa.Return, pan *ssa.Panic) {
+		if ret == nil || st.Ev&allDone != allDone {
+			return
+		}
+		nret++
+		if !st.Has(bEmpty) {
+			badRet++
+			if witRet == nil {
+				witRet, posRet = x.Path(st), ret.Pos()
+			}
+		}
+	}
 	x.Filter = noIntFilter
 	x.Run(nil)
 	if x.Aborted || n == 0 {
 		r.Undecided("R9", "worker: the pending queue is drained only after both goroutines stopped", "no receive from the pending queue was reached")
 		return
+	}
+	if nret == 0 {
+		r.Undecided("R10", "worker: returns after both goroutines stopped", "none explored")
+	} else {
+		r.Check("R10", "worker: after the writer and the reader goroutine have stopped, the worker returns only after it found the pending-response queue empty", badRet == 0, p.Pos(posRet),
+			fmt.Sprintf("%d of %d explored returns with both goroutines stopped have not passed a test that found len(chR) == 0: on the branch that skips the drain (the writer failed first, say) the requests that were written and not answered stay queued across the re-dial, and the next connection's reader completes them with the responses to other requests", badRet, nret), witRet...)
 	}
 	r.Check("R9", "worker: the pending-response queue is drained only after both the writer and the reader goroutine have reported their end", bad == 0, p.Pos(pos),
 		fmt.Sprintf("%d of %d explored arrivals at the drain have not yet received from both completion channels: the goroutine still running can put further items into the queue after the drain; they stay there across the re-dial and are answered with other requests' responses", bad, n), wit...)
